@@ -1044,7 +1044,7 @@ void Handler::readArgumentFile( const string& pathFilename, bool reportMissing)
 
    // now read the lines with arguments and process them
    string  line;
-   while (!std::getline( progArgs, line).eof())
+   while (std::getline( progArgs, line))
    {
       if (line.empty() || (line[ 0] == '#'))
          continue;   // while
